@@ -170,6 +170,8 @@ def live_consts(reg):
 
 
 def reg_message(reg):
+    if "Message" in reg.classes:
+        return
     live_consts(reg)
     reg.add_class(ClassDecl("Message", fields={
         "name": "Str", "send_flags": "Int", "packet_id": "Opt[Int]", "acks": "IntList", "finalized": "Bool",
@@ -177,7 +179,8 @@ def reg_message(reg):
         "deserializer": "Opaque:Any", "offset": "Int", "raw_extra": "Bytes", "meta": "Opaque:Any",
         "sender": "Opaque:Any", "_blocks": "Opaque:Any", "body_boundaries": "Opaque:Any"},
         props={"reliable": (MSG_REL, "Message.reliable"), "has_acks": (MSG_REL, "Message.has_acks"),
-               "zerocoded": (MSG_REL, "Message.zerocoded"), "resent": (MSG_REL, "Message.resent")}))
+               "zerocoded": (MSG_REL, "Message.zerocoded"), "resent": (MSG_REL, "Message.resent"),
+               "extra": (MSG_REL, "Message.extra")}))
     reg.add_class(ClassDecl("UDPPacket", fields={
         "src_addr": "Opaque:Addr", "dst_addr": "Opaque:Addr", "data": "Bytes", "direction": "Dir", "meta": "Opaque:Any"},
         props={"outgoing": (TRANS_REL, "UDPPacket.outgoing"), "incoming": (TRANS_REL, "UDPPacket.incoming"),
